@@ -50,7 +50,7 @@ VARIABLES shape,   \* the root under test (constant after Init)
           tokN,    \* [Tokens -> Nat]          number of cancel() calls so far
           tokReg,  \* [Tokens -> SUBSET Nat]   Inner::tokens (weak keys), by branch
           postC,   \* [Tokens -> BOOLEAN]      ghost: cancel() was called after the root was built
-          lst,     \* [FPos -> "none"|"idle"|"armed"|"notified"|"gone"]  EventListener of each fail_fast()
+          lst,     \* [FPos -> "none"|"idle"|"armed"|"notified"|"gone"|"dead"]  EventListener of each fail_fast()
           br,      \* [1..NB -> branch record]
           rootSt,  \* "live" | "done" | "dropped"
           pend,    \* branches the executor still has to poll (liveness variant: set by wakes)
@@ -346,6 +346,9 @@ FFExpected(b) == \E k \in 1..PLen(b) : Pos(b, k) \in FPos /\ postC[WId(W(Pos(b, 
                                         /\ lst[Pos(b, k)] # "gone"
 
 RootDoneAfter(brs) == \A b \in Br : Finished(brs[b])
+\* a finished branch future is dropped at once (and with it its listeners), a finished root likewise
+KillBr(l, b) == [p \in FPos |-> IF p[1] = b THEN "dead" ELSE l[p]]
+KillAll(l) == [p \in FPos |-> "dead"]
 
 \* the task polls the root; the join polls branch b.  Combinators run outermost first: each fail-fast level
 \* polls its listener before anything below it; every level pushes its Ext through an ExtWaker.
@@ -370,7 +373,7 @@ Poll(b) ==
              IN IF p[1] = 0
                 THEN LET st == Settle([x \in Br |-> DropLeaf(br[x])])
                      IN /\ last' = [base EXCEPT !.r = "ffroot", !.dw = st.dw]
-                        /\ br' = st.brs /\ lst' = lstB /\ rootSt' = "done" /\ phase' = "end" /\ pend' = {}
+                        /\ br' = st.brs /\ lst' = KillAll(lstB) /\ rootSt' = "done" /\ phase' = "end" /\ pend' = {}
                         /\ UNCHANGED tokReg
                 ELSE IF IsStream(b)
                 THEN /\ last' = [base EXCEPT !.r = "ffitem"]
@@ -379,7 +382,7 @@ Poll(b) ==
                 ELSE LET st == Settle([br EXCEPT ![b] = DropLeaf(br[b])])
                          done == RootDoneAfter(st.brs)
                      IN /\ last' = [base EXCEPT !.r = "ffbr", !.dw = st.dw]
-                        /\ br' = st.brs /\ lst' = lstB
+                        /\ br' = st.brs /\ lst' = IF done THEN KillAll(lstB) ELSE KillBr(lstB, b)
                         /\ rootSt' = IF done THEN "done" ELSE rootSt
                         /\ phase' = IF done THEN "end" ELSE phase
                         /\ pend' = IF done THEN {} ELSE PendAfter(pend \ {b}, st.brs, st.dw)
@@ -391,7 +394,8 @@ Poll(b) ==
                  done == RootDoneAfter(st.brs)
              IN /\ last' = [base EXCEPT !.r = o.r, !.v = o.v, !.n = o.n, !.px = o.px, !.seen = e.cancel,
                                         !.lp = TRUE, !.dw = own + st.dw]
-                /\ br' = st.brs /\ lst' = lstA
+                /\ br' = st.brs
+                /\ lst' = IF done THEN KillAll(lstA) ELSE IF Finished(st.brs[b]) THEN KillBr(lstA, b) ELSE lstA
                 /\ tokReg' = IF o.reg = 0 THEN tokReg ELSE [tokReg EXCEPT ![o.reg] = @ \cup {b}]
                 /\ rootSt' = IF done THEN "done" ELSE rootSt
                 /\ phase' = IF done THEN "end" ELSE phase
@@ -414,9 +418,9 @@ DropRoot ==
   /\ phase = "run" /\ rootSt = "live" /\ StepOK
   /\ LET st == Settle([x \in Br |-> DropLeaf(br[x])])
      IN /\ br' = st.brs /\ last' = [NoObs EXCEPT !.a = "drop", !.dw = st.dw]
-  /\ rootSt' = "dropped" /\ phase' = "end" /\ pend' = {}
+  /\ rootSt' = "dropped" /\ phase' = "end" /\ pend' = {} /\ lst' = KillAll(lst)
   /\ steps' = StepInc
-  /\ UNCHANGED <<shape, tokC, tokN, tokReg, postC, lst>>
+  /\ UNCHANGED <<shape, tokC, tokN, tokReg, postC>>
 
 Next ==
   \/ \E t \in Tokens : PreCancel(t) \/ Cancel(t)
@@ -437,7 +441,7 @@ TypeOK ==
   /\ \A b \in Br : /\ br[b].fs \in {"Idle", "Submitted", "Finished", "Ended", "Done", "Taken", "Dropped"}
                    /\ br[b].st \in {"none", "flight", "done", "taken"}
                    /\ br[b].res \in {"-", "ok", "canc", "einval", "eof"}
-  /\ \A p \in FPos : lst[p] \in {"none", "idle", "armed", "notified", "gone"}
+  /\ \A p \in FPos : lst[p] \in {"none", "idle", "armed", "notified", "gone", "dead"}
 
 \* every operation is stamped with exactly the innermost token / personality of its own path, whatever the
 \* nesting; in particular nothing of a sibling's chain reaches it and nothing of its own path is lost
@@ -460,7 +464,7 @@ BadPersOnlyVisible ==
 \* a cancelled fail-fast level answers Err(Cancelled) and nothing below it is polled
 FailFastPrompt == (last.a = "poll" /\ last.ffexp) => (last.r \in {"ffroot", "ffbr", "ffitem"} /\ ~last.lp)
 \* the same including tokens cancelled before fail_fast() was called (holds only with FixListen)
-ListenCoversPast == phase # "pre" => \A p \in FPos : tokC[WId(W(p))] => lst[p] \in {"notified", "gone"}
+ListenCoversPast == phase # "pre" => \A p \in FPos : tokC[WId(W(p))] => lst[p] \in {"notified", "gone", "dead"}
 \* a stream that has returned None keeps returning None (SubmitMulti and SubmitMultiManaged are FusedStream, and
 \* with_cancel / with_personality are transparent; a fail-fast level is not fused: polling it after None is the
 \* caller's fault, it may still answer Err(Cancelled))
